@@ -30,7 +30,7 @@ def plan(tier):
 
 def required_counters(tier):
     return ["unsorted_first_appearance", "unused_category", "observed_only_false", "sort_false", "multi_column", "column_independence_checked",
-            "names_checked", "unobserved_label", "observed_chunked_keys"] + [f"shape:{s}" for s in SHAPES]
+            "names_checked", "non_string_value_label", "falsy_value_label", "unobserved_label", "observed_chunked_keys"] + [f"shape:{s}" for s in SHAPES]
 
 
 def features(case):
@@ -90,7 +90,7 @@ def build_keys(case):
     if len(arrs) == 1 and how != "dict":
         return arrs[0]
     if how == "dict":
-        return {(k.get("name") or f"key{i}"): gen.key_array(k, "np") for i, k in enumerate(case["keys"])}
+        return {(k["name"] if k.get("name") is not None else f"key{i}"): gen.key_array(k, "np") for i, k in enumerate(case["keys"])}
     return arrs
 
 
@@ -113,6 +113,10 @@ def check(case, ctx):
     if getattr(gb, "key_is_chunked", False):
         ctx.count("observed_chunked_keys")
     values, colnames = build_values(case)
+    if any(c is not None and not isinstance(c, str) for c in colnames):
+        ctx.count("non_string_value_label")
+    if any(c is not None and not c for c in colnames):
+        ctx.count("falsy_value_label")
     mask = gen.mask_obj(case["mask"])
     kw = {"observed_only": False} if not case["observed_only"] else {}
     if op == "size":
@@ -130,7 +134,7 @@ def check(case, ctx):
     if isinstance(res, pd.Series):
         if op != "size" and case["shape"] == "series" and colnames[0] is not None:
             ctx.count("names_checked")
-            if res.name != colnames[0]:
+            if res.name != colnames[0] or (type(res.name) is str) != (type(colnames[0]) is str):
                 fails.append({"monitor": "c11.name", "sig": sig, "detail": f"{op}: Series named {res.name!r}, input named {colnames[0]!r}"})
     else:
         ctx.count("multi_column")
@@ -138,7 +142,7 @@ def check(case, ctx):
             return [{"monitor": "c11.shape", "sig": sig, "detail": f"{op}: {res.shape[1]} columns for {ncols} inputs"}]
         if all(c is not None for c in colnames):
             ctx.count("names_checked")
-            if [str(c) for c in res.columns] != [str(c) for c in colnames]:
+            if [(type(c) is str, c) for c in res.columns] != [(type(c) is str, c) for c in colnames]:
                 fails.append({"monitor": "c11.columns", "sig": sig, "detail": f"{op}: columns {list(res.columns)} but inputs were {colnames}"})
     # ---- index levels and names
     idx = res.index
@@ -147,7 +151,7 @@ def check(case, ctx):
         return fails + [{"monitor": "c11.levels", "sig": sig, "detail": f"{op}: {idx.nlevels} index levels for {nk} keys"}]
     knames = [k.get("name") for k in case["keys"]]
     if case.get("keys_as") == "dict":
-        knames = [(k.get("name") or f"key{i}") for i, k in enumerate(case["keys"])]
+        knames = [(k["name"] if k.get("name") is not None else f"key{i}") for i, k in enumerate(case["keys"])]
     for lvl, nm in enumerate(knames):
         if nm is not None:
             ctx.count("names_checked")
@@ -211,10 +215,23 @@ def check(case, ctx):
     return fails
 
 
+def _value_name(rng, j):
+    """labels of value inputs: mostly strings, but also the labels pandas itself hands out (integers from 0, as in
+    pd.DataFrame(ndarray)), and False - falsy labels are still labels"""
+    r = rng.random()
+    if r < 0.5:
+        return f"c{j}"
+    if r < 0.7:
+        return None
+    if r < 0.9:
+        return j
+    return False if j == 0 else j + 5  # not "": get_array_name documents (and the suite asserts) that an empty name means unnamed
+
+
 def gen_case(rng, dtypes):
     n = int(rng.integers(1, 41))
     nk = gen.pick(rng, [1, 1, 1, 2, 2, 3])
-    keys = [gen.gen_key(rng, n, name=gen.pick(rng, [None, f"k{i}", f"k{i}"])) for i in range(nk)]
+    keys = [gen.gen_key(rng, n, name=gen.pick(rng, [None, f"k{i}", f"k{i}", f"k{i}", i + 10 * int(rng.integers(0, 2))])) for i in range(nk)]
     lk = common.lkeys_ns(keys)
     op = gen.pick(rng, ops.RED)
     shape = gen.pick(rng, SHAPES) if op != "size" else "array"
@@ -226,12 +243,12 @@ def gen_case(rng, dtypes):
             dtype = "float64"
         if np.dtype(dtype).kind == "M" and op == "sum":
             dtype = "float64"
-        vs = gen.gen_vals(rng, n, dtype, magnitude="small" if np.dtype(dtype).kind in "iuf" else None, name=gen.pick(rng, [f"c{j}", f"c{j}", None]) if shape in ("list", "dict", "frame", "series") else None)
+        vs = gen.gen_vals(rng, n, dtype, magnitude="small" if np.dtype(dtype).kind in "iuf" else None, name=_value_name(rng, j) if shape in ("list", "dict", "frame", "series") else None)
         vs.pop("tz", None)
         vals.append(vs)
     if shape in ("dict", "frame"):
         for j, vs in enumerate(vals):
-            vs["name"] = vs["name"] or f"col{j}"
+            vs["name"] = vs["name"] if vs["name"] is not None else f"col{j}"
     case = {"n": n, "keys": keys, "vals": vals, "val": vals[0], "mask": gen.gen_mask(rng, n, kind=gen.pick(rng, ["none", "none", "bool", "slice"]), lkeys=lk),
             "op": op, "shape": shape, "sort": bool(rng.random() < 0.65), "observed_only": bool(rng.random() < 0.7),
             "keys_as": gen.pick(rng, ["list", "list", "dict"]) if nk > 1 or rng.random() < 0.1 else "list", "params": {}}
